@@ -30,15 +30,17 @@ class TocRenderer:
         self.render_toc(tocpath, toc_entries, rtl=rtl)
         return self.combine_pdfs(pdfpath, tocpath, finalpath, has_title_page)
 
-    def _get_col_widths(self):
+    def _get_col_widths(self, avail_width):
         paragraph = Paragraph(
             "<b>%d</b>" % 9999, pdfstyles.text_style(mode="toc_article",
                                                      text_align="right")
         )
-        width, _ = paragraph.wrap(0, pdfstyles.PRINT_HEIGHT)
-        # subtracting 30pt below is *probably* necessary b/c
-        # of the table margins
-        return [pdfstyles.PRINT_WIDTH - width - 30, width]
+        paragraph.wrap(avail_width, pdfstyles.PRINT_HEIGHT)
+        # Paragraph.wrap() returns the width it was given, not the width it
+        # needs: take the width of the page number itself and add the
+        # default left/right cell padding of the table (6pt each)
+        width = paragraph.minWidth() + 12
+        return [avail_width - width, width]
 
     def render_toc(self, tocpath, toc_entries, rtl):
         doc = SimpleDocTemplate(tocpath, pagesize=(pdfstyles.PAGE_WIDTH,
@@ -54,7 +56,8 @@ class TocRenderer:
         )
         toc_table = []
         styles = []
-        col_widths = self._get_col_widths()
+        # the frame of a SimpleDocTemplate has 6pt padding on each side
+        col_widths = self._get_col_widths(doc.width - 12)
         for row_idx, (lvl, txt, page_num) in enumerate(toc_entries):
             if lvl == "article":
                 page_num = str(page_num)
